@@ -531,7 +531,7 @@ Proof.
   match goal with |- context [match ?m with (_, _) => _ end] =>
     match m with match wm_sg_fsr g with _ => _ end => destruct m as [b1 g1] eqn:P1 end end.
   assert (F1 : wmw_fstep (wm_st_sigs st) (wm_st_base st) g b1 g1 /\ wm_sg_anno g1 = wm_sg_anno g /\ wm_sg_utc g1 = wm_sg_utc g).
-  { destruct (wm_sg_fsr g) as [f|]; inversion P1; subst b1 g1; clear P1.
+  { destruct (wm_sg_fsr g) as [f|]; (pose proof (f_equal fst P1) as Pb; pose proof (f_equal snd P1) as Pg; cbn [fst snd] in Pb, Pg; subst b1 g1; clear P1).
     - split; [|split; reflexivity].
       eapply (wmw_fstep_tstep _ _ g 0); [reflexivity| |reflexivity|reflexivity|wmw_oth].
       apply (wmw_fsr_close_step summ1 summN 0 (wm_sg_def g) {| wm_fx_base := wm_st_base st; wm_fx_tk := wm_sg_tk_fsr g; wm_fx_fsr := f |}).
@@ -541,7 +541,7 @@ Proof.
   match goal with |- context [match ?m with (_, _) => _ end] =>
     match m with match wm_sg_anno g1 with _ => _ end => destruct m as [b2 g2] eqn:P2 end end.
   assert (F2 : wmw_fstep (wm_st_sigs st) b1 g1 b2 g2).
-  { destruct (wm_sg_anno g1) as [ts|]; inversion P2; subst b2 g2; clear P2; [|apply wmw_fstep_refl].
+  { destruct (wm_sg_anno g1) as [ts|]; (pose proof (f_equal fst P2) as Pb; pose proof (f_equal snd P2) as Pg; cbn [fst snd] in Pb, Pg; subst b2 g2; clear P2); [|apply wmw_fstep_refl].
     eapply (wmw_fstep_tstep _ _ g1 2); [reflexivity| |reflexivity|reflexivity|wmw_oth].
     destruct F1 as (_ & I1 & _). rewrite I1, Hid.
     apply (wmw_ts_close_step id 2 {| wm_tx_base := b1; wm_tx_tk := wm_sg_tk_anno g1; wm_tx_ts := ts |}). }
@@ -549,7 +549,7 @@ Proof.
   match goal with |- context [match ?m with (_, _) => _ end] =>
     match m with match wm_sg_utc g2 with _ => _ end => destruct m as [b3 g3] eqn:P3 end end.
   assert (F3 : wmw_fstep (wm_st_sigs st) b2 g2 b3 g3).
-  { destruct (wm_sg_utc g2) as [ts|]; inversion P3; subst b3 g3; clear P3; [|apply wmw_fstep_refl].
+  { destruct (wm_sg_utc g2) as [ts|]; (pose proof (f_equal fst P3) as Pb; pose proof (f_equal snd P3) as Pg; cbn [fst snd] in Pb, Pg; subst b3 g3; clear P3); [|apply wmw_fstep_refl].
     eapply (wmw_fstep_tstep _ _ g2 3); [reflexivity| |reflexivity|reflexivity|wmw_oth].
     destruct F1 as (_ & I1 & _). destruct F2 as (_ & I2 & _). rewrite I2, I1, Hid.
     apply (wmw_ts_close_step id 3 {| wm_tx_base := b2; wm_tx_tk := wm_sg_tk_utc g2; wm_tx_ts := ts |}). }
